@@ -58,7 +58,7 @@ def detect(seed):
             rc, out = sh(f'patch -p1 -s -f --no-backup-if-mismatch -i {os.path.abspath(seed)}/patch.diff', cwd=d)
         if rc != 0:
             return {'applies': False}
-        rc, out = sh(f'/verif/bin/sfcheck all -repo {d}')
+        rc, out = sh(os.environ.get('SFCHECK_BIN','/verif/bin/sfcheck') + f' all -repo {d}')
         hits = [l for l in out.splitlines() if l.startswith('OBL ') or l.startswith('ERROR')]
         return {'applies': True, 'exit': rc, 'hits': hits}
     finally:
@@ -71,7 +71,7 @@ def detectown(seed):
         rc, out = sh(f'git apply {os.path.abspath(seed)}/patch.diff', cwd=d)
         if rc != 0:
             return {'applies': False}
-        rc, out = sh(f'/verif/bin/sfcheck check -prop {prop} -tier quick -no-evidence -repo {d}')
+        rc, out = sh(os.environ.get('SFCHECK_BIN','/verif/bin/sfcheck') + f' check -prop {prop} -tier quick -no-evidence -repo {d}')
         rules = sorted({l.split()[2] for l in out.splitlines() if l.startswith('OBL violated') or l.startswith('OBL undecided')})
         errs = [l for l in out.splitlines() if l.startswith('ERROR')]
         return {'applies': True, 'property': prop, 'exit': rc, 'rules': rules, 'errors': errs}
